@@ -1,6 +1,407 @@
-(* C03 - placeholder until Proofs/StoreProofs.v is merged *)
-From Xeh Require Import Model.Prelude Model.Bits Model.Store.
+(* C03 - a cloned interpreter is an independent snapshot; re-running it is deterministic.
 
-Theorem C03_clone_same_view : forall st h, snd (h_clone st h) = h.
-Proof. reflexivity. Qed.
-Check C03_clone_same_view : forall st h, snd (h_clone st h) = h.
+   Two layers, as in the design.
+   (i)  Store.v: bit-string buffers are shared (Rc) and mutated in place when uniquely owned.
+        [store_inv st live]: the strong count of every buffer is the number of live handles
+        on it and every live handle is well formed.  It is preserved by every operation
+        (1); an operation never changes what another live handle denotes (2); the result
+        denotes what the list-level operation denotes (3).  [h :: L] reads "the handle the
+        operation consumes, and the other live handles".
+   (ii) the interpreter model: every container of [state] is a value, so a clone is the
+        state itself and evaluation is a function of (state, source) (4).
+   Property theorems only: each is closed by [exact] of a lemma of Proofs/StoreProofs.v or
+   Proofs/SnapshotProofs.v. *)
+From Xeh Require Import Model.Prelude Model.Bits Model.Store.
+From Xeh Require Import Model.Cell Model.Vm Model.Words Model.Build.
+From Xeh Require Proofs.StoreProofs Proofs.SnapshotProofs.
+Local Notation length := List.length.
+Local Open Scope nat_scope.
+Local Open Scope list_scope.
+
+(* ---------- definitions used by the pool statements ---------- *)
+
+(* buffers hold bytes *)
+Definition pop_ok (o : pop) : Prop :=
+  match o with PNew d _ => Forall (fun x => (x < 256)%N) d | _ => True end.
+
+(* the index of the handle an operation consumes *)
+Definition consumes (o : pop) : option nat :=
+  match o with
+  | PDrop i | PDetach i | PAppend i _ | PInvert i | PInsert i _ _ => Some i
+  | _ => None
+  end.
+
+(* the live handles other than the consumed one *)
+Definition survivors (live : list handle) (o : pop) : list handle :=
+  match consumes o with Some i => remove_nth live i | None => live end.
+
+(* whether the operation applies: indices in range, ranges valid (buffer coordinates) *)
+Definition pool_enabled (live : list handle) (o : pop) : bool :=
+  let geth i := nth i live (mkh 0 0 0) in
+  match o with
+  | PNew _ _ => true
+  | PClone i | PDrop i | PDetach i | PInvert i => i <? length live
+  | PSubstr i s e =>
+    (i <? length live) && ((s <=? e) && (hstart (geth i) <=? s) && (e <=? hend (geth i)))
+  | PAppend i j => (i <? length live) && (j <? length live) && negb (i =? j)
+  | PInsert i k j =>
+    (i <? length live) && (j <? length live) && negb (i =? j) &&
+    (k <=? hend (geth i) - hstart (geth i))
+  end.
+
+(* what the new handle denotes, on lists of bits *)
+Definition pool_result (st : store) (live : list handle) (o : pop) : list (list bool) :=
+  let v i := habs st (nth i live (mkh 0 0 0)) in
+  match o with
+  | PNew d _ => [abs (from_bytes d)]
+  | PClone i => [v i]
+  | PDrop _ => []
+  | PSubstr i s e => [firstn (e - s) (skipn (s - hstart (nth i live (mkh 0 0 0))) (v i))]
+  | PDetach i => [v i]
+  | PAppend i j => [v i ++ v j]
+  | PInvert i => [map negb (v i)]
+  | PInsert i k j => [firstn k (v i) ++ v j ++ skipn k (v i)]
+  end.
+
+(* where handle number k of the pool is after the operation; None = consumed *)
+Definition track (live : list handle) (o : pop) (k : nat) : option nat :=
+  if pool_enabled live o then
+    match consumes o with
+    | Some i => if k =? i then None else Some (if i <? k then k - 1 else k)
+    | None => Some k
+    end
+  else Some k.
+
+Fixpoint survives (ops : list pop) (sp : store * list handle) (k : nat) : option nat :=
+  match ops with
+  | [] => Some k
+  | o :: r => match track (snd sp) o k with
+              | Some k' => survives r (pool_step sp o) k'
+              | None => None
+              end
+  end.
+
+(* ---------- (1) the invariant is preserved ---------- *)
+
+Theorem C03_store_inv_step : forall st live o,
+  store_inv st live -> pop_ok o ->
+  let '(st', live') := pool_step (st, live) o in store_inv st' live'.
+Proof. exact StoreProofs.pool_step_inv. Qed.
+Check C03_store_inv_step : forall st live o,
+  store_inv st live -> pop_ok o ->
+  let '(st', live') := pool_step (st, live) o in store_inv st' live'.
+
+Theorem C03_store_inv_run : forall ops, Forall pop_ok ops ->
+  store_inv (fst (pool_run ops)) (snd (pool_run ops)).
+Proof. exact StoreProofs.pool_run_inv. Qed.
+Check C03_store_inv_run : forall ops, Forall pop_ok ops ->
+  store_inv (fst (pool_run ops)) (snd (pool_run ops)).
+
+(* ---------- (2) isolation ---------- *)
+
+(* one operation: every live handle other than the consumed one is still live and
+   denotes the same bits *)
+Theorem C03_isolation_step : forall st live o st' live' g,
+  store_inv st live -> pop_ok o -> pool_step (st, live) o = (st', live') ->
+  In g (survivors live o) -> habs st' g = habs st g /\ In g live'.
+Proof. exact StoreProofs.pool_step_isolation. Qed.
+Check C03_isolation_step : forall st live o st' live' g,
+  store_inv st live -> pop_ok o -> pool_step (st, live) o = (st', live') ->
+  In g (survivors live o) -> habs st' g = habs st g /\ In g live'.
+
+(* the same by position in the pool *)
+Theorem C03_isolation_indexed : forall st live o st' live' k k' g,
+  store_inv st live -> pop_ok o -> pool_step (st, live) o = (st', live') ->
+  nth_error live k = Some g -> track live o k = Some k' ->
+  nth_error live' k' = Some g /\ habs st' g = habs st g.
+Proof. exact StoreProofs.pool_step_track. Qed.
+Check C03_isolation_indexed : forall st live o st' live' k k' g,
+  store_inv st live -> pop_ok o -> pool_step (st, live) o = (st', live') ->
+  nth_error live k = Some g -> track live o k = Some k' ->
+  nth_error live' k' = Some g /\ habs st' g = habs st g.
+
+(* a snapshot handle through any run of operations on the other handles of the pool:
+   as long as it is not itself consumed it denotes what it denoted *)
+Theorem C03_snapshot_run : forall ops st live k k' g,
+  store_inv st live -> Forall pop_ok ops ->
+  nth_error live k = Some g -> survives ops (st, live) k = Some k' ->
+  let '(st', live') := fold_left pool_step ops (st, live) in
+  nth_error live' k' = Some g /\ habs st' g = habs st g.
+Proof. exact StoreProofs.pool_snapshot. Qed.
+Check C03_snapshot_run : forall ops st live k k' g,
+  store_inv st live -> Forall pop_ok ops ->
+  nth_error live k = Some g -> survives ops (st, live) k = Some k' ->
+  let '(st', live') := fold_left pool_step ops (st, live) in
+  nth_error live' k' = Some g /\ habs st' g = habs st g.
+
+(* ---------- (3) the pool evolves as the list-level semantics says ---------- *)
+
+Theorem C03_pool_view_step : forall st live o,
+  store_inv st live -> pop_ok o ->
+  pool_view (pool_step (st, live) o) =
+  if pool_enabled live o then map (habs st) (survivors live o) ++ pool_result st live o
+  else pool_view (st, live).
+Proof. exact StoreProofs.pool_view_step. Qed.
+Check C03_pool_view_step : forall st live o,
+  store_inv st live -> pop_ok o ->
+  pool_view (pool_step (st, live) o) =
+  if pool_enabled live o then map (habs st) (survivors live o) ++ pool_result st live o
+  else pool_view (st, live).
+
+Theorem C03_disabled_noop : forall st live o,
+  pool_enabled live o = false -> pool_step (st, live) o = (st, live).
+Proof. exact StoreProofs.pool_disabled_noop. Qed.
+Check C03_disabled_noop : forall st live o,
+  pool_enabled live o = false -> pool_step (st, live) o = (st, live).
+
+(* ---------- (1)(2)(3) per operation of Store.v ---------- *)
+
+Theorem C03_new : forall st L d bo st' h,
+  store_inv st L -> Forall (fun x => (x < 256)%N) d -> h_new st d bo = (st', h) ->
+  store_inv st' (h :: L) /\ (forall g, In g L -> view st' g = view st g) /\
+  view st' h = from_bytes d.
+Proof. exact StoreProofs.h_new_spec. Qed.
+Check C03_new : forall st L d bo st' h,
+  store_inv st L -> Forall (fun x => (x < 256)%N) d -> h_new st d bo = (st', h) ->
+  store_inv st' (h :: L) /\ (forall g, In g L -> view st' g = view st g) /\
+  view st' h = from_bytes d.
+
+Theorem C03_clone : forall st h L st' h',
+  store_inv st (h :: L) -> h_clone st h = (st', h') ->
+  store_inv st' (h' :: h :: L) /\ (forall g, view st' g = view st g) /\ h' = h.
+Proof. exact StoreProofs.h_clone_spec. Qed.
+Check C03_clone : forall st h L st' h',
+  store_inv st (h :: L) -> h_clone st h = (st', h') ->
+  store_inv st' (h' :: h :: L) /\ (forall g, view st' g = view st g) /\ h' = h.
+
+Theorem C03_drop : forall st h L,
+  store_inv st (h :: L) ->
+  store_inv (h_drop st h) L /\ (forall g, view (h_drop st h) g = view st g).
+Proof. exact StoreProofs.h_drop_spec. Qed.
+Check C03_drop : forall st h L,
+  store_inv st (h :: L) ->
+  store_inv (h_drop st h) L /\ (forall g, view (h_drop st h) g = view st g).
+
+Theorem C03_substr : forall st h L s e,
+  store_inv st (h :: L) ->
+  match h_substr st h s e with
+  | Some (st', h') =>
+    s <= e /\ hstart h <= s /\ e <= hend h /\
+    store_inv st' (h' :: h :: L) /\ (forall g, view st' g = view st g) /\
+    habs st' h' = firstn (e - s) (skipn (s - hstart h) (habs st h))
+  | None => ~ (s <= e /\ hstart h <= s /\ e <= hend h)
+  end.
+Proof. exact StoreProofs.h_substr_spec. Qed.
+Check C03_substr : forall st h L s e,
+  store_inv st (h :: L) ->
+  match h_substr st h s e with
+  | Some (st', h') =>
+    s <= e /\ hstart h <= s /\ e <= hend h /\
+    store_inv st' (h' :: h :: L) /\ (forall g, view st' g = view st g) /\
+    habs st' h' = firstn (e - s) (skipn (s - hstart h) (habs st h))
+  | None => ~ (s <= e /\ hstart h <= s /\ e <= hend h)
+  end.
+
+(* detach: in place iff uniquely owned; either way nobody else sees a change, the bits are
+   the same and the result is uniquely owned *)
+Theorem C03_detach : forall st h L st' h',
+  store_inv st (h :: L) -> h_detach st h = (st', h') ->
+  store_inv st' (h' :: L) /\ (forall g, In g L -> view st' g = view st g) /\
+  habs st' h' = habs st h /\ strong (sget st' (hptr h')) = 1.
+Proof. exact StoreProofs.h_detach_spec. Qed.
+Check C03_detach : forall st h L st' h',
+  store_inv st (h :: L) -> h_detach st h = (st', h') ->
+  store_inv st' (h' :: L) /\ (forall g, In g L -> view st' g = view st g) /\
+  habs st' h' = habs st h /\ strong (sget st' (hptr h')) = 1.
+
+(* when detach copies: in place iff the strong count is 1, and under the invariant that
+   means that no other live handle is on the buffer *)
+Theorem C03_unique_iff_unshared : forall st h L, store_inv st (h :: L) ->
+  (strong (sget st (hptr h)) = 1 <-> forall g, In g L -> hptr g <> hptr h).
+Proof. exact StoreProofs.unique_iff_unshared. Qed.
+Check C03_unique_iff_unshared : forall st h L, store_inv st (h :: L) ->
+  (strong (sget st (hptr h)) = 1 <-> forall g, In g L -> hptr g <> hptr h).
+
+Theorem C03_detach_in_place : forall st h,
+  strong (sget st (hptr h)) = 1 -> h_detach st h = (st, h).
+Proof. exact StoreProofs.h_detach_in_place. Qed.
+Check C03_detach_in_place : forall st h,
+  strong (sget st (hptr h)) = 1 -> h_detach st h = (st, h).
+
+Theorem C03_detach_copies : forall st h,
+  strong (sget st (hptr h)) <> 1 ->
+  hptr (snd (h_detach st h)) = length st /\ length (fst (h_detach st h)) = S (length st).
+Proof. exact StoreProofs.h_detach_copies. Qed.
+Check C03_detach_copies : forall st h,
+  strong (sget st (hptr h)) <> 1 ->
+  hptr (snd (h_detach st h)) = length st /\ length (fst (h_detach st h)) = S (length st).
+
+Theorem C03_make_mut : forall st h L st' h',
+  store_inv st (h :: L) -> h_make_mut st h = (st', h') ->
+  store_inv st' (h' :: L) /\ (forall g, In g L -> view st' g = view st g) /\
+  view st' h' = view st h /\ strong (sget st' (hptr h')) = 1.
+Proof. exact StoreProofs.h_make_mut_spec. Qed.
+Check C03_make_mut : forall st h L st' h',
+  store_inv st (h :: L) -> h_make_mut st h = (st', h') ->
+  store_inv st' (h' :: L) /\ (forall g, In g L -> view st' g = view st g) /\
+  view st' h' = view st h /\ strong (sget st' (hptr h')) = 1.
+
+Theorem C03_append_bits_mut : forall st h t L st' h',
+  store_inv st (h :: L) -> In t L -> h_append_bits_mut st h t = (st', h') ->
+  store_inv st' (h' :: L) /\ (forall g, In g L -> view st' g = view st g) /\
+  habs st' h' = habs st h ++ habs st t.
+Proof. exact StoreProofs.h_append_bits_mut_spec. Qed.
+Check C03_append_bits_mut : forall st h t L st' h',
+  store_inv st (h :: L) -> In t L -> h_append_bits_mut st h t = (st', h') ->
+  store_inv st' (h' :: L) /\ (forall g, In g L -> view st' g = view st g) /\
+  habs st' h' = habs st h ++ habs st t.
+
+Theorem C03_append : forall st h t L st' h',
+  store_inv st (h :: L) -> In t L -> h_append st h t = (st', h') ->
+  store_inv st' (h' :: L) /\ (forall g, In g L -> view st' g = view st g) /\
+  habs st' h' = habs st h ++ habs st t.
+Proof. exact StoreProofs.h_append_spec. Qed.
+Check C03_append : forall st h t L st' h',
+  store_inv st (h :: L) -> In t L -> h_append st h t = (st', h') ->
+  store_inv st' (h' :: L) /\ (forall g, In g L -> view st' g = view st g) /\
+  habs st' h' = habs st h ++ habs st t.
+
+Theorem C03_invert : forall st h L st' h',
+  store_inv st (h :: L) -> h_invert st h = (st', h') ->
+  store_inv st' (h' :: L) /\ (forall g, In g L -> view st' g = view st g) /\
+  habs st' h' = map negb (habs st h).
+Proof. exact StoreProofs.h_invert_spec. Qed.
+Check C03_invert : forall st h L st' h',
+  store_inv st (h :: L) -> h_invert st h = (st', h') ->
+  store_inv st' (h' :: L) /\ (forall g, In g L -> view st' g = view st g) /\
+  habs st' h' = map negb (habs st h).
+
+Theorem C03_insert : forall st h i s L,
+  store_inv st (h :: L) -> In s L ->
+  match h_insert st h i s with
+  | Some (st', h') =>
+    i <= hend h - hstart h /\
+    store_inv st' (h' :: L) /\ (forall g, In g L -> view st' g = view st g) /\
+    habs st' h' = firstn i (habs st h) ++ habs st s ++ skipn i (habs st h)
+  | None => hend h - hstart h < i
+  end.
+Proof. exact StoreProofs.h_insert_spec. Qed.
+Check C03_insert : forall st h i s L,
+  store_inv st (h :: L) -> In s L ->
+  match h_insert st h i s with
+  | Some (st', h') =>
+    i <= hend h - hstart h /\
+    store_inv st' (h' :: L) /\ (forall g, In g L -> view st' g = view st g) /\
+    habs st' h' = firstn i (habs st h) ++ habs st s ++ skipn i (habs st h)
+  | None => hend h - hstart h < i
+  end.
+
+(* the interpreter model applies the VALUE-level operations of Bits.v ([Bits.append false],
+   [invert false]); whatever the sharing situation ([u] = any answer of
+   Rc::strong_count == 1) the handle operation denotes the same bits *)
+Theorem C03_append_agrees_with_value_level : forall st h t L st' h' u,
+  store_inv st (h :: L) -> In t L -> h_append st h t = (st', h') ->
+  habs st' h' = abs (Bits.append u (view st h) (view st t)).
+Proof. exact StoreProofs.store_append_refines. Qed.
+Check C03_append_agrees_with_value_level : forall st h t L st' h' u,
+  store_inv st (h :: L) -> In t L -> h_append st h t = (st', h') ->
+  habs st' h' = abs (Bits.append u (view st h) (view st t)).
+
+Theorem C03_invert_agrees_with_value_level : forall st h L st' h' u,
+  store_inv st (h :: L) -> h_invert st h = (st', h') ->
+  habs st' h' = abs (invert u (view st h)).
+Proof. exact StoreProofs.store_invert_refines. Qed.
+Check C03_invert_agrees_with_value_level : forall st h L st' h' u,
+  store_inv st (h :: L) -> h_invert st h = (st', h') ->
+  habs st' h' = abs (invert u (view st h)).
+
+Theorem C03_insert_agrees_with_value_level : forall st h i s L u,
+  store_inv st (h :: L) -> In s L ->
+  match h_insert st h i s, insert u (view st h) i (view st s) with
+  | Some (st', h'), Some r => habs st' h' = abs r
+  | None, None => True
+  | _, _ => False
+  end.
+Proof. exact StoreProofs.store_insert_refines. Qed.
+Check C03_insert_agrees_with_value_level : forall st h i s L u,
+  store_inv st (h :: L) -> In s L ->
+  match h_insert st h i s, insert u (view st h) i (view st s) with
+  | Some (st', h'), Some r => habs st' h' = abs r
+  | None, None => True
+  | _, _ => False
+  end.
+
+(* ---------- (4) the interpreter level: clone s = s ---------- *)
+
+Definition clone_state (s : state) : state := s.
+
+(* the state an eval call leaves behind (result or error) *)
+Definition eval_state (fo : fops) (pr : string -> option Z) (rf bf : nat)
+           (s : state) (src : string) : state :=
+  match res_state (eval fo pr rf bf src s) with Some s' => s' | None => s end.
+
+Definition run_path (fo : fops) (pr : string -> option Z) (rf bf : nat)
+           (srcs : list string) (s : state) : state :=
+  fold_left (eval_state fo pr rf bf) srcs s.
+
+Theorem C03_eval_functional : forall fo pr rf bf src s1 s2,
+  s1 = s2 -> eval fo pr rf bf src s1 = eval fo pr rf bf src s2.
+Proof. exact SnapshotProofs.eval_functional. Qed.
+Check C03_eval_functional : forall fo pr rf bf src s1 s2,
+  s1 = s2 -> eval fo pr rf bf src s1 = eval fo pr rf bf src s2.
+
+Theorem C03_eval_on_clone : forall fo pr rf bf src s,
+  eval fo pr rf bf src (clone_state s) = eval fo pr rf bf src s.
+Proof. exact SnapshotProofs.eval_on_clone. Qed.
+Check C03_eval_on_clone : forall fo pr rf bf src s,
+  eval fo pr rf bf src (clone_state s) = eval fo pr rf bf src s.
+
+Theorem C03_snapshot_unchanged : forall fo pr rf bf srcs s,
+  let snap := clone_state s in
+  let s' := run_path fo pr rf bf srcs s in
+  snap = s /\ run_path fo pr rf bf srcs snap = s'.
+Proof. exact SnapshotProofs.snapshot_unchanged. Qed.
+Check C03_snapshot_unchanged : forall fo pr rf bf srcs s,
+  let snap := clone_state s in
+  let s' := run_path fo pr rf bf srcs s in
+  snap = s /\ run_path fo pr rf bf srcs snap = s'.
+
+Theorem C03_clone_tree : forall fo pr rf bf p q s,
+  run_path fo pr rf bf (p ++ q) s = run_path fo pr rf bf q (clone_state (run_path fo pr rf bf p s)).
+Proof. exact SnapshotProofs.clone_tree. Qed.
+Check C03_clone_tree : forall fo pr rf bf p q s,
+  run_path fo pr rf bf (p ++ q) s = run_path fo pr rf bf q (clone_state (run_path fo pr rf bf p s)).
+
+(* ---------- non-vacuity ---------- *)
+
+Definition b8 (x : N) : list bool := abs (from_bytes [x]).
+
+(* share then mutate: a value 0xAA, a clone, a slice of it (three handles on one buffer);
+   the original is inverted (copies, because shared), then the inverted value is appended
+   to IN PLACE (it is uniquely owned now): clone and slice still read 0xAA / its nibble *)
+Example C03_isolation_nonvacuous :
+  let ops := [PNew [170%N] false; PClone 0; PSubstr 0 2 6; PInvert 0; PAppend 2 0] in
+  Forall pop_ok ops /\
+  pool_view (pool_run ops) = [b8 170; firstn 4 (skipn 2 (b8 170)); b8 85 ++ b8 170] /\
+  length (fst (pool_run ops)) = 2.
+Proof. vm_compute. split; [repeat constructor|split; reflexivity]. Qed.
+
+(* a uniquely owned value is modified in place: no new buffer *)
+Example C03_in_place_nonvacuous :
+  let sp := pool_run [PNew [170%N] false; PInvert 0] in
+  pool_view sp = [b8 85] /\ length (fst sp) = 1.
+Proof. vm_compute. split; reflexivity. Qed.
+
+(* why isolation is stated for the SURVIVORS (positions) and not for handle values: the
+   result of an in-place operation can be the same handle value as the consumed argument *)
+Example C03_consumed_handle_value_is_reused :
+  let sp := pool_run [PNew [170%N] false] in
+  let sp' := pool_step sp (PInvert 0) in
+  snd sp' = snd sp /\ pool_view sp = [b8 170] /\ pool_view sp' = [b8 85].
+Proof. vm_compute. repeat split; reflexivity. Qed.
+
+(* the snapshot theorem applies: handle 1 survives the whole run at index 0 *)
+Example C03_snapshot_nonvacuous :
+  let sp := pool_run [PNew [170%N] false; PClone 0] in
+  survives [PInvert 0; PNew [1%N] true; PAppend 1 2] sp 1 = Some 0.
+Proof. vm_compute. reflexivity. Qed.
